@@ -48,6 +48,7 @@ pub fn run(ctx: &mut Ctx, suite: &str) {
         "c13" => c12::run_shutdown(ctx),
         "c13e" => c12::run_shutdown_emfile(ctx),
         "c10r" => c12::run_upload_revoked(ctx),
+        "c20w" => c04::run_c20w(ctx),
         "c19" => c19::run(ctx),
         "c20" => c20::run(ctx),
         _ => {
@@ -85,7 +86,7 @@ pub fn replay(ctx: &mut Ctx, tag: &str, args: &[&str]) {
         "c19s" => c19::case_set(ctx, args[0], args[1]),
         "c19w" => c19::case_writer(ctx, args[0], args[1], args[2], args[3], args[4]),
         "c20e" => c20::case_error(ctx, args[0]),
-        "c20s" => c20::case_status(ctx, args[0], args[1]),
+        "c20s" => c20::case_status(ctx, args[0], args[1], args.get(2).copied().unwrap_or("0")),
         _ => eprintln!("unknown case tag {tag}"),
     }
 }
